@@ -116,3 +116,15 @@ Example C02_history_example :
   abs_run ROps None [OpSetAnchor (mkGeo 1 2 3); OpToEnuGeo (mkGeo 0 0 0); OpReset] = None /\
   abs_run ROps None [OpReset; OpToEnuWgs 1 2; OpToEnuGeo (mkGeo 0 0 0)] = Some (mkGeo 1 2 0).
 Proof. split; reflexivity. Qed.
+
+(* SOURCE TIE (translator translate/srcfuns.py): the 3x3 block that ENUConverter::setAnchor writes with its three
+   comma initialisers, regenerated from the clang AST of the current source on every run (gen/SrcFuns.v), is the
+   frame matrix all theorems above are about.  Hence the proper-rotation statement holds of the source's own term. *)
+From Romea Require Import SrcTie.
+From Romea.gen Require Import SrcFuns.
+Theorem C02_source_tie_frame : forall lat lon,
+  src_enuFrame ROps lat lon =
+  (let m := frame_rotation ROps lat lon in
+   (m00 m, m01 m, m02 m, m10 m, m11 m, m12 m, m20 m, m21 m, m22 m)).
+Proof. exact tie_enuFrame. Qed.
+Print Assumptions C02_source_tie_frame.
